@@ -318,3 +318,126 @@ class SmallNormalizeRules(Contract):
             "unary_log_exp": ctx.inner,
         }[ctx.rule]
         return [("definitional_rhs", k(result) == exp)]
+
+
+# ==================================================================================================
+# eager n-ary contraction: a variable is summed out only where every operand mentioning it has been combined
+# ==================================================================================================
+class VTok:
+    def __init__(self, n):
+        self.name = n
+
+    def __repr__(self):
+        return self.name
+
+
+VTOKS = {n: VTok(n) for n in "uvw"}
+
+
+class Opnd(T):
+    """operand with a known set of variables; reduce / Contraction nondeterministically make progress (eager value) or
+    stay lazy (the object normalize would build), as in the real dispatch"""
+
+    def __init__(self, label, vs, origin=None):
+        T.__init__(self, label)
+        self.input_vars = frozenset(VTOKS[v] for v in vs)
+        self.origin = origin or frozenset([label])  # which original operands were combined into this one
+        self.summed = frozenset()
+
+
+@register
+class EagerContractionRecursive(Contract):
+    """cnf.eager_contraction_generic_recursive(red_op, bin_op, reduced_vars, terms): whenever it rewrites to a new Contraction,
+    (a) every variable REMOVED from reduced_vars was summed inside a replacement operand that combines EVERY original operand
+        mentioning that variable (law L2's side condition: the other operands do not depend on it) -- so no bound variable
+        leaks into the remaining operands' inputs and the value is preserved;
+    (b) the untouched operands keep their order, the combined pair is replaced in the position of its first member;
+    (c) variables still in reduced_vars were not summed anywhere.
+    Otherwise it returns None. reduce / pairwise Contraction nondeterministically evaluate or stay lazy.
+    structure bound: <= 3 operands, <= 2 reduced variables, every incidence pattern."""
+
+    props = ("C02", "C08", "C01")
+    file = "funsor/cnf.py"
+    qualname = "eager_contraction_generic_recursive"
+    total = True
+    max_paths = 3000
+    mutants = (("pairs may sum a variable shared with a third operand", "if count == 2)", "if count >= 2)"), ("leaf push-down for variables in two operands", "if count == 1)", "if count <= 2)"))
+
+    def structures(self, tier):
+        subsets = ["", "u", "v", "uv"]
+        for n in (2, 3):
+            for inc in itertools.product(subsets, repeat=n):
+                yield "operands=%s" % ([i or "-" for i in inc],), inc
+
+    def build(self, p, inc):
+        terms = tuple(Opnd("t%d" % i, vs) for i, vs in enumerate(inc))
+        rv = frozenset(VTOKS[v] for v in "uv")
+        stays_lazy = {}
+        ctx = Ctx(namespace=None, terms=terms, rv=rv, p=p, inc=inc)
+
+        class LazyMarker:
+            def __init__(self, key):
+                self.key = key
+
+        class ConRec(Opnd):
+            """the object a Contraction / reduce call returns: whether it is an evaluated value or just the lazy term
+            normalize would build is decided (nondeterministically, once per key) when the code compares identities"""
+
+            def __init__(self, red, bo, vs, ts):
+                vs = frozenset(vs)
+                T.__init__(self, "con")
+                self.red, self.bo, self.vs, self.parts = red, bo, vs, tuple(ts)
+                self.origin = frozenset().union(*[t.origin for t in ts])
+                self.input_vars = frozenset().union(*[t.input_vars for t in ts]) - vs
+                self.summed = frozenset().union(*[t.summed for t in ts]) | vs
+                self.key = (red, bo, vs, tuple(id(t) for t in ts))
+
+            def __sym_is__(self, other):
+                if isinstance(other, LazyMarker) and other.key == self.key:
+                    if self.key not in stays_lazy:
+                        stays_lazy[self.key] = p.fresh_bool("stays_lazy")
+                    return stays_lazy[self.key]
+                return self is other
+
+        class Normalize:
+            @staticmethod
+            def interpret(cls, red, bo, vs, ts):
+                return LazyMarker((red, bo, frozenset(vs), tuple(id(t) for t in ts)))
+
+        def Contraction(red, bo, vs, *ts):
+            return ConRec(red, bo, vs, ts)
+
+        Opnd.reduce = lambda self, op, vs: ConRec(op, NULL, vs, (self,))
+        from collections import Counter
+
+        ctx.ConRec = ConRec
+        ctx.namespace = dict(Counter=Counter, frozenset=frozenset, list=list, tuple=tuple, enumerate=enumerate, normalize=Normalize, Contraction=Contraction, ops=OpsNS)
+        ctx.args = (ADD, MUL, rv, terms)
+        return ctx
+
+    def ensures(self, ctx, result):
+        if result is None:
+            return [("declines_or_rewrites", True)]
+        ok = isinstance(result, ctx.ConRec) and result.red is ADD and result.bo is MUL
+        if not ok:
+            return [("declines_or_rewrites", False)]
+        new_rv, new_terms = result.vs, result.parts
+        removed = ctx.rv - new_rv
+        mentions = {v: frozenset(t.label for t in ctx.terms if v in t.input_vars) for v in ctx.rv}
+        safe = True
+        for v in removed:
+            holders = [t for t in new_terms if v in t.summed]
+            if len(holders) != 1 or not mentions[v] <= holders[0].origin:
+                safe = False
+            if any(v in t.input_vars for t in new_terms):
+                safe = False
+        kept_ok = all(not any(v in t.summed for t in new_terms) for v in new_rv)
+        # order: operands' origins appear in increasing order of their first member
+        firsts = [min(int(l[1:]) for l in t.origin) for t in new_terms]
+        covers = sorted(l for t in new_terms for l in t.origin) == sorted(t.label for t in ctx.terms)
+        return [
+            ("declines_or_rewrites", True),
+            ("summed_variables_are_private_to_the_combined_operands", safe),
+            ("remaining_reduced_variables_untouched", kept_ok),
+            ("operand_order_and_coverage", firsts == sorted(firsts) and covers),
+        ]
